@@ -29,7 +29,9 @@ COQ = os.path.join(VERIF, "coq")
 REPO = os.environ.get("SUDS_REPO", "/repo")
 EVIDENCE = os.path.join(VERIF, "evidence")
 REPLAYS = os.path.join(VERIF, "replays")
-KNOWN_FILE = os.path.join(VERIF, "KNOWN_FINDINGS.json")
+# VERIF_KNOWN_FILE: development aid only (try proposed entries from a scratch copy);
+# registered commands never set it.
+KNOWN_FILE = os.environ.get("VERIF_KNOWN_FILE") or os.path.join(VERIF, "KNOWN_FINDINGS.json")
 NCPU = int(os.environ.get("VERIF_JOBS", "16"))
 
 FORBIDDEN = re.compile(
